@@ -39,7 +39,8 @@ MUST_HIT = ["timeout_between_messages", "observer_busy_at_stop_marker", "zero_de
             "validator_object_passed_to_worker", "clock_at_end_of_second", "overlapping_reader",
             "reader_with_max_read_and_saver", "tokenizer_with_logger_zero_detections", "stale_temporary_wav_present",
             "more_than_4096_detections", "recording_reader", "saver_default_cache", "audio_block_equal_to_a_library_constant",
-            "observer_busy_for_more_than_a_second", "parameters_refused_by_the_worker_constructor"]
+            "observer_busy_for_more_than_a_second", "parameters_refused_by_the_worker_constructor",
+            "free_running_preempted_at_every_line"]
 ASSUMPTIONS = [
     "interleavings are explored at the granularity of queue operations, source reads, observer callbacks, thread start/exit and joins (DESIGN 3.4)",
     "liveness judged under the harness's fair continuation after the generated prefix",
@@ -360,7 +361,16 @@ def check_case(case, rec):
             classes.add("observer_busy_at_stop_marker")
         nt = len(exp) >= 2 and "timeout_before_first_message" in classes and run.sched.switches >= 10
         if case.get("free"):
-            free = pipeline.run_pipeline(case, scheduled=False, jitter=[0.0, 0.0002, 0.0])
+            # free-running threads (no scheduler); every other time they also give up the interpreter at every line of
+            # the library, so that switches fall between statements the scheduler's yield points do not separate
+            from ..common import preempt_every_line
+            import contextlib as _cl
+
+            pre = len(case.get("choices", ())) % 2 == 0
+            with (preempt_every_line() if pre else _cl.nullcontext()):
+                free = pipeline.run_pipeline(case, scheduled=False, jitter=[0.0, 0.0002, 0.0])
+            if pre:
+                classes.add("free_running_preempted_at_every_line")
             try:
                 judge_observers(free, case, exp)
                 judge_files(free, case, exp, free.src.handed)
